@@ -97,7 +97,7 @@ def diff_kinds(report, extra_regions, a, b):
         cb = b[s:s + step]
         if ca == cb:
             continue
-        for k in range(len(ca)):
+        for k in range(min(len(ca), len(cb))):
             if ca[k] != cb[k]:
                 kinds.add(_kind_at(report, extra_regions, s + k))
     return sorted(kinds)
@@ -178,6 +178,52 @@ def extra_regions(data, report):
     return out
 
 
+VRS_IDS = (b'BEA01', b'NSR02', b'NSR03', b'TEA01', b'BOOT2', b'CD001')
+
+
+def orphan_sectors(data, regions, space):
+    """sectors inside the declared volume that hold something (not all zero) and belong to no
+    region any of the independent decoders knows (C01/C07: nothing else appears, space is released
+    with the last reference).  Volume structure descriptors of the ECMA-167 recognition sequence
+    are recognised by their identifier.  At most 16 sectors are reported."""
+    n = min(space, len(data) // 2048)
+    used = bytearray(n)
+    for r in regions:
+        st, ns = r.get('start'), r.get('nsect')
+        if isinstance(st, int) and isinstance(ns, int) and st < n:
+            for k in range(max(0, st), min(n, st + max(ns, 0))):
+                used[k] = 1
+    # El Torito: the catalog, and boot images that have no name in any directory.  The catalog
+    # gives their first sector and the number of 512-byte sectors to load, not their length: the
+    # image extends to the next object.
+    try:
+        from decoders import eltorito
+        erep = eltorito.decode(data)
+        if erep['br']['present'] and 0 < erep['br']['cat_sector'] < n:
+            used[erep['br']['cat_sector']] = 1
+        for e in erep['entries']:
+            k = e.get('rba', -1)
+            while isinstance(k, int) and 0 < k < n and not used[k]:
+                used[k] = 1
+                k += 1
+    except Exception:  # pylint: disable=broad-except
+        pass
+    zero = bytes(2048)
+    out = []
+    for k in range(n):
+        if used[k]:
+            continue
+        sec = data[k * 2048:(k + 1) * 2048]
+        if sec == zero:
+            continue
+        if 16 <= k < 64 and sec[1:6] in VRS_IDS:
+            continue
+        out.append(k)
+        if len(out) >= 16:
+            break
+    return out
+
+
 def image_item(iid, data, wlog, bit_sectors=(), pad=0, do_remaster=True, expect=None, report=None):
     report = dict(report) if report is not None else iso9660.decode(data)
     extra = extra_regions(data, report)
@@ -191,6 +237,7 @@ def image_item(iid, data, wlog, bit_sectors=(), pad=0, do_remaster=True, expect=
             'wlog': [[o, n] for (o, n) in wlog if o != 'truncate' and n > 0],
             'bit': list(bit_sectors), 'space': space, 'nsect': len(data) // 2048, 'rem': len(data) % 2048,
             'pad': pad, 'api': raw_api(data)}
+    item['orphans'] = orphan_sectors(data, item['regions'], space)
     if expect:
         report['expect'] = expect
     if 'error' in item['api']:
